@@ -187,3 +187,4 @@ func vFmtInt(k int, s string) uint64 {
 	}
 	panic(vSkip{"vFmtInt: no such integer"})
 }
+func vTokOperand(k int) uint64 { panic(vSkip{"vTokOperand has no native counterpart"}) }
